@@ -24,7 +24,7 @@ AREAS = ["parameters_a", "parameters_b", "parameters_c", "conditions", "directiv
 
 
 # obligations whose exhaustion costs more than ~4 CPU-minutes on the unchanged tree (measured): thorough tier only
-HEAVY = {"roundtrip_common_members3", "roundtrip_manifest_a_members3_uri0", "roundtrip_manifest_a_members3_uri1", "roundtrip_manifest_a_members3_uri2", "roundtrip_textmap_entries0", "roundtrip_encrypt_calg1", "roundtrip_encrypt_calg2"}
+HEAVY = {"roundtrip_envelope_a_severed3", "roundtrip_textmap_entries1", "roundtrip_hierarchy_expansion_never", "roundtrip_common_members3", "roundtrip_manifest_a_members3_uri0", "roundtrip_manifest_a_members3_uri1", "roundtrip_manifest_a_members3_uri2", "roundtrip_textmap_entries0", "roundtrip_encrypt_calg1", "roundtrip_encrypt_calg2"}
 
 
 def obligations(tier):
